@@ -90,9 +90,11 @@ var (
 	// barriers that failed for good; after the third the driver stops driving (every further barrier would
 	// cost 30 s, and the run is rejected anyway)
 	timeouts int
-	execNo   int
-	curDir   string
-	started  int64 // SinceNs of the execution's subscribers
+	// a local log buffer was flushed during the current execution (subscriptions may be polling the persisted log)
+	execFlushed bool
+	execNo      int
+	curDir      string
+	started     int64 // SinceNs of the execution's subscribers
 )
 
 func must(err error, what string) {
@@ -630,6 +632,7 @@ func pollFlushed() {
 	for _, n := range nodes {
 		if v := locFlush(n); v != n.lflush {
 			n.lflush = v
+			execFlushed = true
 			w.Emit(tr.Ev{"ev": "flushed", "f": n.idx, "buf": "loc"})
 		}
 	}
@@ -731,7 +734,7 @@ func doSync(k int) {
 	}
 	pollFlushed()
 	if what != "" {
-		if !rotStuck(wf) {
+		if !rotStuck(wf) && !execFlushed {
 			timeouts++
 		}
 		w.Emit(tr.Ev{"ev": "timeout", "what": what, "c": wf.c, "f": wf.f, "kind": wf.kind, "rot": rotated()})
@@ -761,6 +764,7 @@ func runExec(ex []tr.Ev) {
 	r["dir"] = curDir
 	r["n"] = len(nodes)
 	w.Emit(r)
+	execFlushed = false
 	for _, n := range nodes {
 		n.flush0, n.rot = aggFlush(n), false
 		n.lflush = locFlush(n)
